@@ -14,6 +14,12 @@ func (g *gen) runReal(c *Case) {
 		g.r.Count("skipped_grpc_web_over_h2", 1)
 		return
 	}
+	if c.Step && g.withheldSeen[c.Lane+" "+c.prefix()] {
+		// one witness per transport is enough; every further lock-step
+		// case would wait for the same watchdog
+		g.r.Count("skipped_lockstep_after_withheld", 1)
+		return
+	}
 	t0 := time.Now()
 	vs, outcome := g.execReal(c)
 	if d := time.Since(t0); debug && d > 500*time.Millisecond {
@@ -50,8 +56,8 @@ func (g *gen) laneReal() {
 func (g *gen) realSeqs() [][]string {
 	seqs := [][]string{{}, {"T"}, {"E", "T", "E"}, {"D40", "X", "D300", "T"}, {"T", "T", "T", "T", "T", "T"}}
 	if g.r.Thorough() {
-		pool := []string{"E", "T", "X", "D1", "D7", "D40", "D125", "D126", "D300", "D5000"}
-		for i := 0; i < 12; i++ {
+		pool := []string{"E", "T", "X", "D1", "D7", "D40", "D125", "D126", "D300", "D5000", "D70000"}
+		for i := 0; i < 24; i++ {
 			n := g.rng.Intn(7)
 			ks := make([]string, n)
 			for j := range ks {
@@ -445,5 +451,4 @@ func (g *gen) realTruncation() {
 			}
 		}
 	}
-	_ = fmt.Sprint
 }
